@@ -5,6 +5,7 @@ import (
 	"fmt"
 	"math"
 	"strings"
+	"unicode"
 	"unicode/utf8"
 
 	"github.com/go-openapi/swag"
@@ -247,13 +248,15 @@ func validUTF8(s string) string {
 		s = strings.ToValidUTF8(s, "?")
 	}
 	if yamlDoc {
-		// gopkg.in/yaml.v3 (trusted base, not under test) does not round-trip every string with line breaks or
-		// control characters (a key "\n" comes back as ""): YAML documents are generated without them
+		// gopkg.in/yaml.v3 (trusted base, not under test) does not round-trip every string: a key "\n" comes back
+		// as "", a key "<<" is written unquoted and read back as a merge key. The YAML payload is here for the
+		// media-type plumbing, not for yaml.v3's quoting, so its strings keep letters, digits and a few harmless
+		// punctuation bytes only.
 		s = strings.Map(func(r rune) rune {
-			if r < 0x20 || r == 0x7f || r == 0x85 || r == 0x2028 || r == 0x2029 || r == 0xfeff {
-				return -1
+			if unicode.IsLetter(r) || unicode.IsDigit(r) || strings.ContainsRune(" _-./%+@", r) {
+				return r
 			}
-			return r
+			return -1
 		}, s)
 	}
 	return s
